@@ -206,12 +206,47 @@ int main(int argc, char **argv) {
     po.reorder = rs["popts"]["reorder"].asBool();
     po.wideOrdering = rs["popts"]["wideOrdering"].asBool();
     ColoquinteParameters p = vg::genParams(pr, po);
+    if (rs.has("maxsteps")) {
+      p.global.maxNbSteps = (int)rs["maxsteps"].asInt();
+      p.global.nbInitialSteps = std::min(p.global.nbInitialSteps, p.global.maxNbSteps - 1);
+    }
     vt::emit(rs);
     vt::forked((int)rs["run"].asInt(), timeout, errPath,
                [&] { scenario(rs["scen"].asStr(), (int)rs["run"].asInt(), base, p, rs["withCb"].asBool()); });
     return 0;
   }
 
+  if (g_args.count("cases")) {
+    // TLC-emitted C07 case table: {"scen":"c07","shape":..,"mag":..,"variant":..,"run":k}
+    std::ifstream f(g_args["cases"]);
+    std::string line;
+    long long sd = argi("seed", 1);
+    while (std::getline(f, line)) {
+      Value b;
+      if (!vj::parseLine(line, b) || !b.has("shape")) continue;
+      long long k = b["run"].asInt();
+      uint64_t s = (uint64_t)sd * 7919ULL + (uint64_t)b["variant"].asInt() * 104729ULL + std::hash<std::string>()(b["shape"].asStr()) % 1000003ULL + (uint64_t)b["mag"].asInt();
+      vg::Rng r(s);
+      Circuit base = vg::genShape(r, b["shape"].asStr(), (int)b["mag"].asInt());
+      uint64_t pseed = r.u() >> 1;
+      vg::Rng pr(pseed);
+      vg::ParamOpts po;
+      ColoquinteParameters p = vg::genParams(pr, po);
+      p.global.maxNbSteps = std::min(p.global.maxNbSteps, 25);
+      p.global.nbInitialSteps = std::min(p.global.nbInitialSteps, p.global.maxNbSteps - 1);
+      std::string sc = b["variant"].asInt() % 2 ? "full" : "det";
+      Value rs = vt::ev("Reset");
+      Value pov = Value::object();
+      pov.set("defaultsOnly", po.defaultsOnly).set("reorder", po.reorder).set("wideOrdering", po.wideOrdering);
+      rs.set("run", k).set("scen", sc).set("gseed", (long long)s).set("pseed", (long long)pseed).set("popts", pov).set("c07", b);
+      rs.set("withCb", false).set("params", vg::paramsToJson(p)).set("circ", vp::circuitToJson(base)).set("wl", 0);
+      rs.set("maxsteps", p.global.maxNbSteps);
+      vt::emit(rs);
+      vt::forked((int)k, timeout, errPath, [&] { scenario(sc, (int)k, base, p, false); });
+    }
+    unlink(errPath.c_str());
+    return 0;
+  }
   long long seed = argi("seed", 1), first = argi("first", 0), runs = argi("runs", 10);
   vg::GenOpts go;
   go.maxMovable = (int)argi("maxMovable", go.maxMovable);
